@@ -14,7 +14,6 @@ import (
 	"cuelabs.dev/go/oci/ociregistry"
 	"cuelabs.dev/go/oci/ociregistry/ociclient"
 	"cuelabs.dev/go/oci/ociregistry/ocidebug"
-	"cuelabs.dev/go/oci/ociregistry/ocimem"
 	"cuelabs.dev/go/oci/ociregistry/ociserver"
 	"verif/harness/hx"
 )
@@ -70,7 +69,7 @@ type built struct {
 	reg      ociregistry.Interface // what the caller talks to
 	spy      *spy                  // the same, remembering the last error it handed out
 	rec      *recorder
-	mem      *ocimem.Registry // instance B
+	mem      ociregistry.Interface // instance B
 	inflight int64            // handlers running in any of the servers
 	sent     [2]int64         // requests each client (0 = the caller's) has handed to its transport
 	served   [2]int64         // requests each server (0 = the outermost) has finished with
@@ -151,8 +150,8 @@ func clientFor(srvURL string, page int, tr http.RoundTripper) ociregistry.Interf
 
 func nolog(string, ...any) {}
 
-func build(s Stack) *built {
-	b := &built{mem: ocimem.New()}
+func build(s Stack, behind ociregistry.Interface) *built {
+	b := &built{mem: behind}
 	b.rec = newRecorder(b.mem)
 	serve := func(backend ociregistry.Interface, o SOpts, hop int) string {
 		h := ociserver.New(backend, serverOptions(o))
